@@ -312,5 +312,20 @@ example : Disj (⟨0, 0⟩ : Range Int) ⟨0, 3⟩ ∧ Disj (⟨0, 3⟩ : Range 
   unfold Disj; decide
 example : (Op.add (3:Int) 1).ok ∧ inInt32 3 := by unfold Op.ok inInt32; decide
 example : Integral ⟨2, 5⟩ := by unfold Integral; decide +kernel
+-- hypotheses of the history theorems: admissible operations exist at every coordinate type
+example : (Op.restrict (1/2 : Rat) 3).ok ∧ (Op.filter (0 : Rat) (9/4)).ok := by
+  unfold Op.ok; decide +kernel
+example : (Op.add (7 : UInt32) 2).ok := uint_ok _
+example : ∀ a ∈ (Op.add (3 : Int) 24).args, inInt32 a := by
+  intro a ha; simp [Op.args] at ha; rcases ha with h | h <;> subst h <;> (unfold inInt32; decide)
+-- hypotheses of `comparator_consistent`: three well-formed pairwise disjoint ranges, one of them empty
+example : Disj (⟨0, 0⟩ : Range UInt32) ⟨2, 3⟩ ∧ Disj (⟨2, 3⟩ : Range UInt32) ⟨3, 6⟩ ∧ Disj (⟨0, 0⟩ : Range UInt32) ⟨3, 6⟩ := by
+  unfold Disj; decide
+-- a filter history whose point set is not a function of the previous point set: touching ranges
+example : run [Op.add (1:Int) 3, .add 3 5, .filter 0 4] = [⟨1, 3⟩] ∧ run [Op.add (1:Int) 5, .filter 0 4] = [] := by
+  decide
+-- the invariant and the total length at the three types
+example : MultiRange.Inv [(⟨1, 3⟩ : Range UInt32), ⟨3, 5⟩] ∧ MultiRange.totalLength [(⟨1, 3⟩ : Range UInt32), ⟨3, 5⟩] = 4 := by
+  refine ⟨⟨by intro x hx; simp at hx; rcases hx with h | h <;> subst h <;> decide, by simp [R]⟩, by decide⟩
 
 end Bpp.C20
